@@ -1,70 +1,92 @@
-import sys, random, re, importlib.util
-sys.path.insert(0,'/repo')
-spec = importlib.util.spec_from_file_location('em','/verif/notes/probes/edit_model.py'); em = importlib.util.module_from_spec(spec); spec.loader.exec_module(em)
+"""Edit correspondence: random canonical documents x sequences of 1-5 set/rm operations (existing, fresh, too-deep,
+attrpath-family paths).  After EVERY call — also the ones that raise — the printed attribute structure of the
+implementation (names in attrpath form, order, values) is compared inside Coq with `view` of the heap model
+(E.EditModel: parse_doc, m_set, m_rm).   usage: edit_corr.py SEED N OUTDIR PREFIX"""
+import json, os, random, re, sys
+from common import write_shards
+seed, N, outdir, prefix = int(sys.argv[1]), int(sys.argv[2]), sys.argv[3], sys.argv[4]
+from gen_docs import DocGen
 from nix_manipulator import parse
 from nix_manipulator.parser import parse_to_ast
 from nix_manipulator.cli.manipulations import set_value, remove_value
-def q(t): return '(s "%s")' % t.replace('"','""')
+def q(t): return '(s "%s")' % t.replace('"', '""')
 def qs(l): return '[' + '; '.join(q(x) for x in l) + ']'
 def idoc(node):
-    items=[]
+    items = []
     for c in node.children:
-        if c.type!='binding_set': continue
+        if c.type != 'binding_set': continue
         for b in c.children:
-            if b.type!='binding': continue
-            ap=b.child_by_field_name('attrpath'); val=b.child_by_field_name('expression')
-            segs=[a.text.decode() for a in ap.children if a.type!='.']
-            v = idoc(val) if val.type in ('attrset_expression','rec_attrset_expression') else 'IAtom %s' % q(' '.join(val.text.decode().split()))
+            if b.type != 'binding': continue
+            ap = b.child_by_field_name('attrpath'); val = b.child_by_field_name('expression')
+            segs = [a.text.decode() for a in ap.children if a.type != '.']
+            v = idoc(val) if val.type in ('attrset_expression', 'rec_attrset_expression') else 'IAtom %s' % q(' '.join(val.text.decode().split()))
             items.append('(%s, %s)' % (qs(segs), v))
     return '(ISet %s [%s])' % ('true' if b'\n' in node.text else 'false', '; '.join(items))
+def impl_view(text):
+    root = parse_to_ast(text); top = [c for c in root.children if c.type != 'comment'][0]
+    def vs(node):
+        out = []
+        for c in node.children:
+            if c.type != 'binding_set': continue
+            for b in c.children:
+                if b.type != 'binding': continue
+                ap = b.child_by_field_name('attrpath'); val = b.child_by_field_name('expression')
+                out.append((ap.text.decode(), vs(val) if val.type in ('attrset_expression', 'rec_attrset_expression') else ' '.join(val.text.decode().split())))
+        return out
+    return vs(top)
 def tree(view):
-    return 'TS [' + '; '.join('(%s, %s)' % (q(n), tree(v) if isinstance(v,list) else 'TA %s' % q(v)) for n,v in view) + ']'
-if __name__=='__main__':
-    seed=int(sys.argv[1]); N=int(sys.argv[2]); out=sys.argv[3]
-    sys.argv=[sys.argv[0], str(seed), '0']
-    exec(open('/verif/notes/probes/gen_canon.py').read().split('bad=0')[0])
-    R2=random.Random(seed+99); cases=[]
-    def allpaths(view, prefix=()):
-        o=[]
-        for n,v in view:
-            p=prefix+tuple(n.split('.'))
-            for k in range(len(prefix)+1, len(p)+1): o.append(p[:k])
-            if isinstance(v,list): o+=allpaths(v,p)
-        return o
-    def lookup(view, path):
-        for n,v in view:
-            segs=tuple(n.split('.'))
-            if tuple(path[:len(segs)])==segs:
-                if len(path)==len(segs): return v
-                if isinstance(v,list):
-                    r=lookup(v, path[len(segs):])
-                    if r is not None: return r
-        return None
-    while len(cases)<N:
-        d=doc()
-        if len(d)>700: continue
-        root=parse_to_ast(d); top=[c for c in root.children if c.type!='comment'][0]
-        try: src=parse(d)
-        except ValueError: continue
-        v0=em.impl_view(src.rebuild()); ops=[]; okcase=True
-        for step in range(R2.randrange(1,6)):
-            view=em.impl_view(src.rebuild()); paths=sorted(set(allpaths(view)))
-            r=R2.random()
-            if paths and r<0.5: p=list(R2.choice(paths))
-            elif paths and r<0.8: p=list(R2.choice(paths))[:-1]+['fresh%d'%step]
-            elif paths: p=list(R2.choice(paths))+['deep%d'%step] + (['x'] if R2.random()<0.3 else [])
-            else: p=['k']
-            if any(not re.fullmatch(r"[A-Za-z_][A-Za-z0-9_']*", x) for x in p): okcase=False; break
-            op=R2.choice(['set','set','rm']); val=str(R2.randrange(1000,2000))
-            cur=lookup(view,p)
-            if op=='set' and isinstance(cur,str) and re.fullmatch(r"[A-Za-z_][A-Za-z0-9_']*", cur) and cur not in ('true','false','null'): continue
-            try:
-                o=(set_value(src,'.'.join(p),val) if op=='set' else remove_value(src,'.'.join(p))); e='EOk (%s)' % tree(em.impl_view(o))
-            except KeyError: e='EKey (%s)' % tree(em.impl_view(src.rebuild()))
-            except ValueError: e='EVal (%s)' % tree(em.impl_view(src.rebuild()))
-            ops.append('(%s, %s)' % (('OSet %s %s' % (qs(p), q(val))) if op=='set' else 'ORm %s' % qs(p), e))
-        if okcase and ops: cases.append('(%s, %s, [%s])' % (idoc(top), tree(v0), '; '.join(ops)))
-    with open(out,'w') as f:
-        f.write('From Coq Require Import List Ascii String. Import ListNotations.\nFrom E Require Import EditModel EditRun.\nOpen Scope string_scope.\n')
-        f.write('Definition cases : list (idoc * tree * list (opk * exp)) := [\n' + ';\n'.join(cases) + '\n].\nEval vm_compute in (List.length cases, bad 0 cases).\n')
-    print('cases', len(cases))
+    return 'TS [' + '; '.join('(%s, %s)' % (q(n), tree(v) if isinstance(v, list) else 'TA %s' % q(v)) for n, v in view) + ']'
+def allpaths(view, prefix=()):
+    o = []
+    for n, v in view:
+        p = prefix + tuple(n.split('.'))
+        for k in range(len(prefix) + 1, len(p) + 1): o.append(p[:k])
+        if isinstance(v, list): o += allpaths(v, p)
+    return o
+def lookup(view, path):
+    for n, v in view:
+        segs = tuple(n.split('.'))
+        if tuple(path[:len(segs)]) == segs:
+            if len(path) == len(segs): return v
+            if isinstance(v, list):
+                r = lookup(v, path[len(segs):])
+                if r is not None: return r
+    return None
+IDENT = re.compile(r"[A-Za-z_][A-Za-z0-9_']*")
+G = DocGen(random.Random(seed)); R2 = random.Random(seed + 99)
+cases, stats, samples = [], {'ops': 0, 'applied': 0, 'KeyError': 0, 'ValueError': 0, 'set': 0, 'rm': 0, 'attrpath_docs': 0}, []
+while len(cases) < N:
+    d = G.doc()
+    if len(d) > 700: continue
+    root = parse_to_ast(d); top = [c for c in root.children if c.type != 'comment'][0]
+    try: src = parse(d)
+    except ValueError: continue
+    v0 = impl_view(src.rebuild()); ops = []; okcase = True; plain = []
+    for step in range(R2.randrange(1, 6)):
+        view = impl_view(src.rebuild()); paths = sorted(set(allpaths(view)))
+        r = R2.random()
+        if paths and r < 0.5: p = list(R2.choice(paths))
+        elif paths and r < 0.8: p = list(R2.choice(paths))[:-1] + ['fresh%d' % step]
+        elif paths: p = list(R2.choice(paths)) + ['deep%d' % step] + (['x'] if R2.random() < 0.3 else [])
+        else: p = ['k']
+        if any(not IDENT.fullmatch(x) for x in p): okcase = False; break
+        op = R2.choice(['set', 'set', 'rm']); val = str(R2.randrange(1000, 2000))
+        cur = lookup(view, p)
+        if op == 'set' and isinstance(cur, str) and IDENT.fullmatch(cur) and cur not in ('true', 'false', 'null'): continue   # reference redirection: C11
+        try:
+            o = (set_value(src, '.'.join(p), val) if op == 'set' else remove_value(src, '.'.join(p))); e = 'EOk (%s)' % tree(impl_view(o)); stats['applied'] += 1
+        except KeyError: e = 'EKey (%s)' % tree(impl_view(src.rebuild())); stats['KeyError'] += 1
+        except ValueError: e = 'EVal (%s)' % tree(impl_view(src.rebuild())); stats['ValueError'] += 1
+        stats['ops'] += 1; stats[op] += 1
+        ops.append('(%s, %s)' % (('OSet %s %s' % (qs(p), q(val))) if op == 'set' else 'ORm %s' % qs(p), e)); plain.append([op, '.'.join(p), val])
+    if okcase and ops:
+        cases.append('(%s, %s, [%s])' % (idoc(top), tree(v0), '; '.join(ops)))
+        if '.' in ''.join(n for n, _ in v0): stats['attrpath_docs'] += 1
+        if len(samples) < 3: samples.append({'doc': d, 'ops': plain})
+HDR = 'From Coq Require Import List Ascii String. Import ListNotations.\nFrom E Require Import EditModel EditRun.\nOpen Scope string_scope.\n'
+OK = 'Definition ok (c : idoc * tree * list (opk * exp)) : bool := match check c with None => true | Some _ => false end.\n'
+write_shards(outdir, prefix, HDR, 'idoc * tree * list (opk * exp)', OK, cases, 16)
+json.dump({'stats': stats, 'keys': [], 'distinct_count': len(set(cases)),
+           'rule': 'canonical F0 documents (nested/inline sets, lists, attrpath bindings, attrpath families, comments) x 1-5 set/rm on existing, fresh, too-deep paths; view compared after every call incl. refused ones; distinct = distinct (document, op sequence)',
+           'samples': samples}, open(os.path.join(outdir, prefix + '_summary.json'), 'w'))
+print(len(cases))
